@@ -375,6 +375,67 @@ func (c *Check) keptSetForwarded() {
 			}
 		}
 	}
+	if build != nil && len(stores) == 0 {
+		// the options are put together by a helper that is handed the kept set: in the helper
+		// the store of that parameter dominates every return, and newGraph passes its own
+		// parameter
+		for _, a := range build.Call.Args {
+			oc, isCall := a.(*ssa.Call)
+			if !isCall || structName(a.Type()) != "graph.Options" {
+				continue
+			}
+			h := oc.Call.StaticCallee()
+			if h == nil || !fnInModule(h) || len(h.Blocks) == 0 {
+				continue
+			}
+			good, found := false, false
+			for _, b := range h.Blocks {
+				for _, ins := range b.Instrs {
+					st, ok := ins.(*ssa.Store)
+					if !ok {
+						continue
+					}
+					fa, ok := st.Addr.(*ssa.FieldAddr)
+					if !ok {
+						continue
+					}
+					if T, F := fieldOf(fa.X.Type(), fa.Field); T != "graph.Options" || F != "KeptNodes" {
+						continue
+					}
+					found = true
+					par, isPar := st.Val.(*ssa.Parameter)
+					if !isPar {
+						continue
+					}
+					dom := true
+					for _, rb := range h.Blocks {
+						if ret, isRet := rb.Instrs[len(rb.Instrs)-1].(*ssa.Return); isRet && !instrDominates(st, ret) {
+							dom = false
+						}
+					}
+					idx := -1
+					for i, q := range h.Params {
+						if q == par {
+							idx = i
+						}
+					}
+					if dom && idx >= 0 && idx < len(oc.Call.Args) {
+						if _, fromOwn := oc.Call.Args[idx].(*ssa.Parameter); fromOwn {
+							good = true
+						}
+					}
+				}
+			}
+			if found {
+				if good {
+					c.ok("C05-R10", key, p.relFile(oc.Pos()), "the kept set reaches the graph construction unconditionally", "the helper that builds the options stores its parameter into Options.KeptNodes before every return, and newGraph passes its own parameter")
+				} else {
+					c.bad("C05-R10", key, p.relFile(oc.Pos()), "(*Report).newGraph hands its kept set to the graph construction only on some paths of "+fnName(h)+": a cutoff that removes every entry yields the untrimmed graph")
+				}
+				return
+			}
+		}
+	}
 	if build == nil || len(stores) == 0 {
 		c.undecided("C05-R10", key, p.relFile(f.Pos()), "(*Report).newGraph: the store into graph.Options.KeptNodes or the call that builds the graph was not found")
 		return
